@@ -765,9 +765,14 @@ def emit_canon_text(text):
     result = None
     names = []
 
+    for ln in lines:
+        t = ln.split()
+        if t[0] == "wire":
+            widths[t[-1]] = int(t[2])
+
     def see(spec):
         for n, _sel in spec[0]:
-            if (n.startswith("$") or n == "\\out") and n not in names:
+            if (n.startswith("$") or n == "\\out") and widths.get(n) != 0 and n not in names:
                 names.append(n)
 
     def parse_body(i):
@@ -844,6 +849,9 @@ def emit_canon_text(text):
     see(result)
 
     def ren(n):
+        # a zero-width wire carries nothing; the backend reuses the wire of any zero-width signal for zero-width outputs
+        if widths.get(n) == 0:
+            return "_0"
         return f"w{names.index(n)}" if n in names else n
 
     def spec_s(spec):
